@@ -14,13 +14,13 @@ BASE = ["early", "ttl", "holder", "content"]
 CLAUSES = {
     "C02": BASE + ["dispo"],
     "C03": BASE + ["dispo", "stop"],
-    "C04": BASE + ["dispo", "retry"],
-    "C06": BASE + ["dispo", "recur"],
+    "C04": BASE + ["retry"],
+    "C06": BASE + ["recur"],
     "C09": BASE + ["limit", "progress"],
     "C10": BASE + ["mlimit", "progress"],
     "C11": BASE + ["route", "progress"],
 }
-OWN = {"C02": ["dispo"], "C03": ["stop", "dispo"], "C04": ["retry", "dispo"], "C06": ["recur"], "C09": ["limit", "progress"],
+OWN = {"C02": ["dispo"], "C03": ["stop", "dispo"], "C04": ["retry"], "C06": ["recur"], "C09": ["limit", "progress"],
        "C10": ["mlimit", "progress"], "C11": ["route", "progress"]}
 
 
@@ -302,6 +302,9 @@ def model_check(ck: Check, pid: str, tier: str) -> None:
 def selftest(ck: Check, traces, v) -> None:
     good = [i for i in v.accepted if sum(1 for e in traces[i] if e["e"] == "xe") >= 1][:5]
     if not good:
+        if ck.violations:
+            ck.notes["selftest"] = "skipped: every recorded run was rejected"
+            return
         raise tlc.MachineryError("self-test: no accepted trace with an execution")
     bad = []
     for i in good:
